@@ -25,7 +25,7 @@ def plan(tier, seed):
     n = 170 if tier == 'quick' else 3000
     specs = []
     for v in tables.versions():
-        for kind in ('segment', 'field', 'message'):
+        for kind in ('segment', 'field', 'message', 'component'):
             specs.append({'world': kind, 'version': v, 'n': n})
     return specs
 
